@@ -48,7 +48,7 @@ CHECKS = {
          "floor/ceil/round/trunc/fract panic by design and are excluded", "4-C11"),
  'C12': ("proptest-generated matrices with known condition number / eigenvalue gaps (Givens products, row permutations of both parities) and exact singular constructions; validity predicates (A x = b, A A^-1 = I, Leibniz determinant, A V = V L, V^T V = I, ascending order) evaluated on the library output in the reference algebra with conditioning-scaled tolerances",
          "Exploration with validity-predicate oracles in every derivative part for the crate's LU/Jacobi/norm (5 scalar types) and nalgebra's generic LU/inverse/determinant/symmetric_eigen (4 field types); singular matrices must be reported.",
-         "nalgebra's symmetric_eigen only checked to its calibrated accuracy (iteration truncated on the real part inside nalgebra: 1e7/1e9/1e12 u)", "4-C12"),
+         "derivative parts of nalgebra's symmetric_eigen beyond the conditioning-scaled tolerance are the known finding C12/na-symmetric-eigen/derivative-parts (excluded and counted; KNOWN-FINDING line)", "4-C12"),
  'C13': ("proptest over the four convertible types x {f32,f64}^2 x static/dynamic dimensions 0..6 x presence patterns x special values (NaN, inf, non-f32-representable) incl. nested heap-allocated element types; round-trip / coherence oracles for SubsetOf/SupersetOf, nalgebra convert/try_convert/cast; counting-allocator leak oracle; same check under libFuzzer+ASan and Miri (thorough)",
          "Exploration with exact oracles (per-part `as` conversion, presence kept, from_superset.is_some() == is_in_subset for every value) plus memory-safety evidence from a leak-counting allocator on every case, ASan/LSan fuzzing and Miri on a generated subset.",
          "memory safety only as strong as the sanitizers on generated inputs; not a proof about the unsafe blocks", "4-C13"),
